@@ -197,6 +197,156 @@ fn random_case(rng: &mut Rng, n: usize, origin: &str, big: bool) -> Case {
     Case { n, edges, ids, max_iter, pr, origin: origin.into() }
 }
 
+
+/// Structured families (shapes a uniform random graph rarely produces): hubs, chains, cycles
+/// (the uniform vector is a fixed point: early exit in round 1), complete bipartite graphs
+/// (synchronous CDLP oscillates with period 2), cliques joined by bridges, all-dangling graphs,
+/// spider traps, heavy multi-edges (CDLP and the out-degree count multiplicities).  CDLP budgets
+/// sweep 0..=8 (stopping exactly at / one before / one after the converging round), PageRank
+/// tolerances and iteration counts sweep wider than the random cases.
+fn structured_case(rng: &mut Rng, kind: usize, n: usize, big: bool) -> Case {
+    let n = n.max(2);
+    let mut edges: Vec<(usize, usize)> = vec![];
+    let origin = match kind % 11 {
+        0 => {
+            for i in 1..n {
+                edges.push((0, i));
+            }
+            "structured:star-out"
+        }
+        1 => {
+            for i in 1..n {
+                edges.push((i, 0));
+            }
+            "structured:star-in"
+        }
+        2 => {
+            for i in 1..n {
+                edges.push((0, i));
+                edges.push((i, 0));
+            }
+            "structured:star-mutual"
+        }
+        3 => {
+            for i in 0..n {
+                edges.push((i, (i + 1) % n));
+            }
+            if rng.chance(1, 3) {
+                edges.push((rng.usize(n), rng.usize(n))); // one chord breaks the symmetry
+            }
+            "structured:cycle"
+        }
+        4 => {
+            for i in 0..n - 1 {
+                edges.push((i, i + 1));
+                if rng.chance(1, 4) {
+                    edges.push((i + 1, i));
+                }
+            }
+            "structured:path"
+        }
+        5 => {
+            let a = 1 + rng.usize(n - 1);
+            let both = rng.chance(1, 2);
+            for i in 0..a {
+                for j in a..n {
+                    if big && !rng.chance(1, 200) {
+                        continue;
+                    }
+                    edges.push((i, j));
+                    if both {
+                        edges.push((j, i));
+                    }
+                }
+            }
+            "structured:bipartite"
+        }
+        6 => {
+            let a = n / 2;
+            for (lo, hi) in [(0, a), (a, n)] {
+                for i in lo..hi {
+                    for j in lo..hi {
+                        if i != j && (!big || rng.chance(1, 100)) {
+                            edges.push((i, j));
+                        }
+                    }
+                }
+            }
+            edges.push((0, n - 1));
+            if rng.chance(1, 2) {
+                edges.push((n - 1, 0));
+            }
+            "structured:two-cliques"
+        }
+        7 => {
+            let k = 3;
+            let blobs = (n / k).max(1);
+            for b in 0..blobs {
+                for i in 0..k {
+                    for j in 0..k {
+                        if i != j && b * k + i < n && b * k + j < n {
+                            edges.push((b * k + i, b * k + j));
+                        }
+                    }
+                }
+                let nb = ((b + 1) % blobs) * k;
+                if nb < n && blobs > 1 {
+                    edges.push((b * k, nb));
+                }
+            }
+            "structured:ring-of-cliques"
+        }
+        8 => {
+            if rng.chance(1, 2) {
+                edges.push((rng.usize(n), rng.usize(n)));
+            }
+            "structured:all-dangling"
+        }
+        9 => {
+            for i in 0..n - 2 {
+                edges.push((i, i + 1));
+            }
+            edges.push((n - 2, n - 1));
+            edges.push((n - 1, n - 2));
+            edges.push((n - 1, n - 1));
+            "structured:spider-trap"
+        }
+        _ => {
+            let pairs = 1 + rng.usize(n.min(6));
+            for _ in 0..pairs {
+                let (u, v) = (rng.usize(n), rng.usize(n));
+                for _ in 0..1 + rng.usize(4) {
+                    edges.push((u, v));
+                }
+                if rng.chance(1, 2) {
+                    edges.push((v, u));
+                }
+            }
+            "structured:multi-edges"
+        }
+    };
+    let mut ids: Vec<u64> = (0..n as u64).map(|i| 3 * i + 1).collect();
+    match rng.usize(3) {
+        0 => {}
+        1 => ids.reverse(),
+        _ => {
+            for i in (1..n).rev() {
+                let j = rng.usize(i + 1);
+                ids.swap(i, j);
+            }
+        }
+    }
+    let max_iter = if big { *rng.pick(&[2usize, 3, 100]) } else if rng.chance(1, 5) { 100 } else { rng.usize(9) };
+    let mut pr = vec![];
+    for _ in 0..if big { 2 } else { 3 } {
+        let d = *rng.pick(&[0.85f64, 0.5, 0.99, 0.0, 1.0, 0.85]);
+        let it = if big { *rng.pick(&[1usize, 2, 4]) } else { *rng.pick(&[0usize, 1, 2, 3, 10, 50]) };
+        let tol = *rng.pick(&[0.0f64, 1e-1, 1e-2, 1e-3, 1e-6, 1e-10]);
+        pr.push((f(d), it, f(tol), rng.chance(1, 2)));
+    }
+    Case { n, edges, ids, max_iter, pr, origin: origin.into() }
+}
+
 fn exhaustive(n: usize, cases: &mut Vec<Case>) {
     // every directed simple graph with self-loops on n nodes (2^(n*n) edge sets), two id orders
     let pairs: Vec<(usize, usize)> = (0..n).flat_map(|u| (0..n).map(move |v| (u, v))).collect();
@@ -259,7 +409,7 @@ fn main() {
         }
         rep.exhaustive = true;
         rep.exhaustive_note = format!(
-            "all directed graphs with self-loops on <= {} nodes (two id orders, CDLP max_iterations in {{1,2,100}}, two PageRank configs each); plus PRNG multigraphs up to 60 nodes and on both sides of n = 1000 (999/1000/1001) (not exhaustive)",
+            "all directed graphs with self-loops on <= {} nodes (two id orders, CDLP max_iterations in {{1,2,100}}, two PageRank configs each); plus PRNG multigraphs up to 60 nodes, structured families (stars, cycles, paths, complete bipartite, cliques with bridges, all-dangling, spider traps, multi-edges; CDLP budgets 0..8) and both on both sides of n = 1000 (not exhaustive)",
             if args.thorough() { 3 } else { 2 }
         );
         let mut rng = Rng::new(args.seed);
@@ -275,14 +425,33 @@ fn main() {
             let n = if i % 20 == 0 { 30 + rng.usize(31) } else { 1 + rng.usize(14) };
             cases.push(random_case(&mut rng, n, "random", false));
         }
+        // structured families, quick tier too
+        let per_kind = if args.thorough() { 300 } else { 30 };
+        for i in 0..per_kind * 11 {
+            let n = 2 + rng.usize(if i % 7 == 0 { 24 } else { 10 });
+            cases.push(structured_case(&mut rng, i, n, false));
+        }
         let bigs: Vec<usize> = if args.thorough() { vec![999, 1000, 1001, 1000, 1500] } else { vec![999, 1000, 1001] };
+        let n_heavy_random = bigs.len();
         for n in bigs {
             let mut c = random_case(&mut rng, n, "threshold", true);
             c.max_iter = *rng.pick(&[3usize, 5, 100]);
             cases.push(c);
         }
+        // structured shapes on the rayon side of the threshold, with early exit (tolerance > 0)
+        let big_kinds: Vec<(usize, usize)> = if args.thorough() {
+            vec![(1, 1000), (3, 1000), (4, 1001), (8, 1000), (5, 1200), (6, 1000), (0, 1000), (9, 1003)]
+        } else {
+            vec![(1, 1000), (3, 1000), (4, 1001), (8, 1000)]
+        };
+        let n_heavy = n_heavy_random + big_kinds.len();
+        for (k, n) in big_kinds {
+            let mut c = structured_case(&mut rng, k, n, true);
+            c.origin = format!("threshold-{}", c.origin);
+            cases.push(c);
+        }
         // interleave: par_batch hands out contiguous chunks, so spread the heavy cases
-        let nb = if args.thorough() { 5 } else { 3 };
+        let nb = n_heavy;
         let heavy: Vec<Case> = cases.split_off(cases.len() - nb);
         let step = cases.len() / nb;
         for (i, h) in heavy.into_iter().enumerate() {
